@@ -287,3 +287,74 @@ example : ((iPair linkDefs findBody findElse swappedRelate sch11 (run sch11 (his
   decide
 
 end PyxProps.C02
+
+/-! ==========================================================================================================
+  AUDIT ROUND 1 REPAIRS (C02#2, #3): referential reads for every sufficient fuel  — appended section
+  ========================================================================================================== -/
+namespace PyxProps.C02
+open Pyx.Meta
+
+/-- C02#2 — THE referential-read clause as one theorem, for a general layer list and EVERY sufficient fuel.
+    Hypothesis (acyclicity): a rank `rk` decreases along every target link a read follows (`RankDecreases`; without it
+    the Python code itself recurses without end).  Then for every fuel ≥ `(rk x + 1) * (layerBound sch + 2)`:
+    an attribute that no association formalises reads the instance's own id (or is unset); a referential attribute reads
+    the converged value (`readValue`) of the identifying attribute of the partner across the outermost layer that HAS a
+    partner, and is unset when no layer has one.  The result no longer depends on the fuel (`fuel_monotone`). -/
+theorem referential_read_clause (sch : Schema) (at_ : Attrs) (s : State) (rk : Inst → Nat) (hdec : RankDecreases s rk)
+    (x : Inst) (name : String) (fuel : Nat) (hf : (rk x + 1) * (layerBound sch + 2) ≤ fuel) :
+    getAttr sch at_ s fuel x name =
+      match (formalFrom (s.kindOf x) name 0 sch).reverse with
+      | [] => if at_.idName (s.kindOf x) = some name then some (s.idOf x) else none
+      | layers => readSpec (readValue sch at_ s rk) s x layers :=
+  getAttr_spec sch at_ s rk hdec x name fuel (by rw [bnd_eq]; exact hf)
+
+theorem fuel_monotone (sch : Schema) (at_ : Attrs) (s : State) (rk : Inst → Nat) (hdec : RankDecreases s rk)
+    (x : Inst) (name : String) (f1 f2 : Nat) (h1 : (rk x + 1) * (layerBound sch + 2) ≤ f1)
+    (h2 : (rk x + 1) * (layerBound sch + 2) ≤ f2) :
+    getAttr sch at_ s f1 x name = getAttr sch at_ s f2 x name :=
+  getAttr_stable sch at_ s rk hdec (rk x) x rfl name f1 f2 (by rw [bnd_eq]; exact h1) (by rw [bnd_eq]; exact h2)
+
+/-- C02#3 — the fuel the driver uses, `(s.count + 1) * (layerBound sch + 2)`, is sufficient for every instance whose rank
+    is at most `s.count` (any acyclic link state over `s.count` instances admits such a rank): the driver's referential
+    reads are the converged values, never an out-of-fuel `none` -/
+theorem driver_fuel_sufficient (sch : Schema) (at_ : Attrs) (s : State) (rk : Inst → Nat) (hdec : RankDecreases s rk)
+    (x : Inst) (hx : rk x ≤ s.count) (name : String) :
+    getAttr sch at_ s ((s.count + 1) * (layerBound sch + 2)) x name = readValue sch at_ s rk x name := by
+  unfold readValue
+  apply getAttr_stable sch at_ s rk hdec (rk x) x rfl
+  · rw [bnd_eq]; exact Nat.mul_le_mul_right _ (by omega)
+  · exact Nat.le_refl _
+
+/-! non-vacuity — the audit's counterexample: R7 N.Next_Id → Z.Id and the reflexive R2 N.Next_Id → N.Next_Id (a
+    referential IDENTIFYING key), chain N0 → N1 → N2 → N3 → N4 → Z5.  Every Ni reads Z's id (1); the old fuel
+    `2·|assocs| + 4 = 8` ran out on N0 and N1, the new fuel does not. -/
+def schChain : Schema :=
+  [{ rel := "R7", srcKind := 0, srcKeys := ["Next_Id"], srcMany := true, srcCond := true, srcPhrase := "",
+     tgtKind := 1, tgtKeys := ["Id"], tgtMany := false, tgtCond := true, tgtPhrase := "" },
+   { rel := "R2", srcKind := 0, srcKeys := ["Next_Id"], srcMany := false, srcCond := true, srcPhrase := "succ",
+     tgtKind := 0, tgtKeys := ["Next_Id"], tgtMany := false, tgtCond := true, tgtPhrase := "pred" }]
+def stChain : State :=
+  { init with
+    kindOf := fun x => if x = 5 then 1 else 0, count := 6, idOf := fun x => if x = 5 then 1 else 0
+    links := fun i =>
+      if i = 0 then { src := fun x => if x = 5 then [4] else [], tgt := fun x => if x = 4 then [5] else [] }
+      else { src := fun x => if 1 ≤ x ∧ x ≤ 4 then [x - 1] else [], tgt := fun x => if x < 4 then [x + 1] else [] } }
+def atChain : Attrs := { idName := fun k => if k = 1 then some "Id" else none }
+example : RankDecreases stChain (fun x => 5 - x) := by
+  intro i x o h
+  by_cases hi : i = 0
+  · subst hi
+    by_cases hx : x = 4
+    · subst hx; simp [stChain] at h; subst h; decide
+    · simp [stChain, hx] at h
+  · by_cases hx : x < 4
+    · simp [stChain, hi, hx] at h; subst h
+      exact Nat.sub_lt_sub_left (Nat.lt_of_lt_of_le hx (by decide)) (Nat.lt_succ_self x)
+    · simp [stChain, hi, hx] at h
+example : ((List.range 5).map fun x => getAttr schChain atChain stChain ((stChain.count + 1) * (layerBound schChain + 2)) x "Next_Id") =
+      [some 1, some 1, some 1, some 1, some 1] ∧
+    ((List.range 5).map fun x => getAttr schChain atChain stChain (2 * schChain.length + 4) x "Next_Id") =
+      [none, none, some 1, some 1, some 1] := by decide
+
+end PyxProps.C02
+
